@@ -32,10 +32,10 @@ import discretisedfield.tools as dft  # noqa: E402
 import discretisedfield.util as dfu  # noqa: E402
 
 # custom dimension names / units: judged for the angle tools since /repo 92e592a2 (the result mesh keeps names and
-# units; the cell LENGTH of a dimension named 'V' is used, not Mesh.dV).  Still only observed (reported to the
-# maintainer, not judged until decided there): demag_field pads 'x','y','z' by name and refuses other names.
+# units; the cell LENGTH of a dimension named 'V' is used, not Mesh.dV) and for demag_tensor / demag_field since
+# /repo d5b1053a (they follow the dimension names and units of the mesh).
 JUDGE_NAMES = True
-JUDGE_DEMAG_NAMES = False
+JUDGE_DEMAG_NAMES = True
 C4 = 1 / (4 * np.pi)
 PI4 = 4 * np.pi
 RTOL = 1e-7
@@ -152,13 +152,41 @@ def nearunit_line_vectors(rng, n, anti=True):
     return np.array(out)
 
 
+# rational points on the unit circle: exactly planar unit vectors (m_z == 0), exact products on the Coq side
+CIRCLE = [(1.0, 0.0), (0.6, 0.8), (-0.8, 0.6), (-0.6, -0.8), (5 / 13, 12 / 13), (-12 / 13, 5 / 13), (0.0, -1.0),
+          (8 / 17, -15 / 17), (-1.0, 0.0), (0.8, -0.6), (-5 / 13, -12 / 13), (7 / 25, 24 / 25), (-24 / 25, 7 / 25)]
+
+
+def planar2d(rng, sh):
+    """in-plane textures (one component exactly zero everywhere): spin spirals / XY configurations with
+    neighbour angles around 120 degrees (coplanar triangles spread over more than a half circle)"""
+    flavour = rng.choice(["spiral120", "spiral120", "circle", "angles", "spiral-generic"])
+    a0, q0, q1 = rng.uniform(0, 6.28), rng.choice([2.094, 2.2, 1.9, -2.094, 2.6]), rng.choice([0.0, 2.094, -2.3, 0.4])
+    arr = np.zeros((*sh, 3))
+    plane = rng.choice([(0, 1), (0, 1), (1, 2), (0, 2)])
+    for i in range(sh[0]):
+        for j in range(sh[1]):
+            if flavour == "spiral120":        # exact 3-sublattice order from rational circle points
+                c_, s_ = [(0.6, 0.8), (-12 / 13, 5 / 13), (7 / 25, -24 / 25)][(i + 2 * j) % 3]
+            elif flavour == "circle":
+                c_, s_ = rng.choice(CIRCLE)
+            else:
+                ang = a0 + q0 * i + q1 * j + (rng.uniform(-0.3, 0.3) if flavour == "angles" else 0.0)
+                c_, s_ = math.cos(ang), math.sin(ang)
+            arr[i, j, plane[0]], arr[i, j, plane[1]] = c_, s_
+    return arr * rng.choice([1.0, 1.0, 8e5, 0.5])
+
+
 def field_case_2d(rng, kind, big=False):
     lo, hi = (1, 5) if not big else (3, 9)
     sh = [rng.randint(lo, hi), rng.randint(lo, hi)]
     cell = [dyadic_cell(rng), dyadic_cell(rng)]
     p1 = [F(rng.randint(-16, 16), 2) for _ in range(2)]
-    tex = rng.choice(["random", "random", "smooth", "smooth", "axis", "uniform", "nearunit", "nearunit"])
-    if tex == "random":
+    tex = rng.choice(["random", "random", "smooth", "smooth", "axis", "uniform", "nearunit", "nearunit", "planar",
+                      "planar"])
+    if tex == "planar":
+        arr = planar2d(rng, sh)
+    elif tex == "random":
         arr = np.array([rand_vec(rng) for _ in range(sh[0] * sh[1])]).reshape(*sh, 3)
     elif tex == "nearunit":
         base = unitize(smooth2d(rng, sh)) if rng.random() < 0.6 else \
@@ -234,6 +262,11 @@ def generate(rng, tier):
         cases.append(demagseq_case(rng, k))
     for k in range(24 if q else 150):
         cases.append(quarter_case(rng))
+    for k in range(24 if q else 150):
+        c = field_case_2d(rng, "planar", big=True)
+        c.update(vals=[g.qs(x) for x in planar2d(rng, c["sh"]).reshape(-1).tolist()], tex="planar", dims=None,
+                 bc=rng.choice(["", "", "x", "xy"]))
+        cases.append(c)
     for k in range(3 if q else 9):
         cases.append(dict(kind="names", variant=k % 3, seed=rng.randint(0, 10**6)))
     for k in range(36 if q else 150):
@@ -517,6 +550,8 @@ def bl_table(o, sh, valid=None):
                     risky = True
                     val = 0.0
                 tab.setdefault(key, F(val))
+                if key[3] == 0 and val != 0 and any(e0[k_] == 0 and ea[k_] == 0 and eb[k_] == 0 for k_ in range(3)):
+                    ang_bad = True      # all three vectors in a coordinate plane: the triple product is exactly 0
                 re = 1 + float(key[0] + key[1] + key[2])
                 im = float(key[3])
                 mod = math.hypot(re, im)
@@ -1118,6 +1153,46 @@ def run_quarter(c, rec):
     rec.update(obs=obs, key=f'quarter/{tuple(sh)}/{c["tex"]}/{all(c["valid"])}/{c["bc"]}', nontrivial=True)
 
 
+def run_planar(c, rec):
+    """exactly planar textures: a half turn about the plane normal is a proper rotation that maps m to -m, so
+    rotation invariance + sign reversal force Q = 0 (both methods); all operations below keep the zero
+    component exactly zero, so no rounding enters the triple products"""
+    f = build(c)
+    sh = c["sh"]
+    dA = fl(c["cell"][0]) * fl(c["cell"][1])
+    base = both_charges(f)
+    rev = both_charges(with_array(f, -f.array))
+    _, _, ang_bad = bl_table(f.orientation.array, sh)
+    if ang_bad:
+        rec["oracle"].append("bl-angle-nonzero-for-coplanar-triangle")
+    obs = dict(base={m: repr(base[m][1]) for m in base}, reversed={m: repr(rev[m][1]) for m in rev})
+    for m in base:
+        d0, q0 = base[m]
+        d1, q1 = rev[m]
+        if d0 is None or q0 is None or d1 is None or q1 is None:
+            rec["oracle"].append(f"planar-raised-{m}")
+            continue
+        if not (np.all(np.isfinite(d0)) and np.all(np.isfinite(d1))):
+            obs["nonfinite"] = True       # exactly antiparallel neighbours (exceptional configuration)
+            continue
+        if far(q1, -q0, 1e-9) or far(d1, -d0, 1e-9 / dA):
+            rec["oracle"].append(f"reversal-changes-planar-charge-{m}")
+        if far(q0, 0.0, 1e-9) or far(d0, 0.0, 1e-9 / dA):
+            rec["oracle"].append(f"planar-texture-nonzero-charge-{m}")
+    if not c.get("bc"):
+        for k in (1, 2, 3):
+            st, fr = attempt(lambda: f.rotate90("x", "y", k=k))
+            if st != "ok":
+                continue
+            other = both_charges(fr)
+            for m in other:
+                if other[m][1] is None or base[m][1] is None or not np.all(np.isfinite(base[m][0])):
+                    continue
+                if far(other[m][1], base[m][1], 1e-9) or far(np.rot90(base[m][0], k=k), other[m][0], 1e-9 / dA):
+                    rec["oracle"].append(f"quarter-turn-changes-planar-charge-{m}")
+    rec.update(obs=obs, key=f'planar/{tuple(sh)}/{all(c["valid"])}/{c.get("bc", "")}', nontrivial=True)
+
+
 def run_names(c, rec):
     """custom dimension names ('a','b','V') and units on every tool of the statement; observations only
     unless JUDGE_NAMES (see the note at the top of this file)"""
@@ -1273,6 +1348,30 @@ def run_demag(c, rec):
             rec["oracle"].append("mean-field-of-axis-magnetisation-not-along-the-axis")
         if not (-Mv * (1 + 1e-9) <= hm[i] <= 0):
             rec["oracle"].append("demag-factor-outside-0-1")
+    # magnetisation created with an explicit dtype: the field must be floating point and equal its float64 twin
+    for dt, Mi in ((int, 1), (np.int64, 800000), (np.int32, 3), (np.float32, 2.5), (np.float64, Mv)):
+        ms = []
+        for i in range(3):
+            v = [0, 0, 0]
+            v[i] = Mi
+            st, H = attempt(lambda: dft.demag_field(df.Field(mesh, nvdim=3, value=v, dtype=dt), T))
+            st0, H0 = attempt(lambda: dft.demag_field(df.Field(mesh, nvdim=3, value=[float(x) for x in v]), T))
+            if st != "ok" or st0 != "ok":
+                rec["oracle"].append("demag-field-raised-for-dtype")
+                break
+            if not np.issubdtype(H.array.dtype, np.floating):
+                rec["oracle"].append("demag-field-not-floating-point")
+            tol_ = (1e-5 if dt is np.float32 else 1e-9) * abs(Mi)
+            if far(H.array, H0.array, tol_):
+                rec["oracle"].append("demag-field-depends-on-the-dtype-of-the-magnetisation")
+            ms.append(float(H.mean()[i]))
+        if len(ms) == 3:
+            tol_ = (1e-5 if dt is np.float32 else 1e-6) * abs(Mi)
+            if far(sum(ms), -float(Mi), tol_):
+                rec["oracle"].append("demag-factors-do-not-sum-to-minus-M-for-dtype")
+            ext_ = [k * h for k, h in zip(sh, cell)]
+            if max(ext_) - min(ext_) <= 1e-12 * max(ext_) and far(ms, [-float(Mi) / 3] * 3, tol_):
+                rec["oracle"].append("cube-demag-factor-not-one-third-for-dtype")
     if len(means) == 3:
         obs["means_over_M"] = [m / Mv for m in means]
         if abs(sum(means) + Mv) > 1e-6 * Mv:
